@@ -99,6 +99,8 @@ struct upipe_h264f {
     unsigned int max_urefs;
     /** list of blockers (used during urequest) */
     struct uchain blockers;
+    /** true if the pipe holds a reference on itself while urefs are buffered */
+    bool buffered;
     /** buffered output uref (used during urequest) */
     struct uref *uref_output;
 
@@ -313,6 +315,7 @@ static struct upipe *upipe_h264f_alloc(struct upipe_mgr *mgr,
     upipe_h264f_init_uref_stream(upipe);
     upipe_h264f_init_output(upipe);
     upipe_h264f_init_input(upipe);
+    upipe_h264f_from_upipe(upipe)->buffered = false;
     upipe_h264f_init_flow_format(upipe);
     upipe_h264f_init_flow_def(upipe);
     upipe_h264f_init_ubuf_mgr(upipe);
@@ -2731,7 +2734,11 @@ static void upipe_h264f_input(struct upipe *upipe, struct uref *uref,
         upipe_h264f_block_input(upipe, upump_p);
         /* Increment upipe refcount to avoid disappearing before all packets
          * have been sent. */
-        upipe_use(upipe);
+        struct upipe_h264f *upipe_h264f = upipe_h264f_from_upipe(upipe);
+        if (!upipe_h264f->buffered) {
+            upipe_h264f->buffered = true;
+            upipe_use(upipe);
+        }
     }
 }
 
@@ -2790,14 +2797,20 @@ static int upipe_h264f_check_ubuf_mgr(struct upipe *upipe,
         upipe_h264f->uref_output = NULL;
     }
 
-    bool was_buffered = !upipe_h264f_check_input(upipe);
+    /* Providers may answer from inside upipe_h264f_output_input (new
+     * parameter sets renew the requests), which runs this function again:
+     * keep the pipe until we are done, and release the reference of
+     * upipe_h264f_input only once. */
+    upipe_use(upipe);
     upipe_h264f_output_input(upipe);
     upipe_h264f_unblock_input(upipe);
-    if (was_buffered && upipe_h264f_check_input(upipe)) {
+    if (upipe_h264f->buffered && upipe_h264f_check_input(upipe)) {
         /* All packets have been output, release again the pipe that has been
          * used in @ref upipe_h264f_input. */
+        upipe_h264f->buffered = false;
         upipe_release(upipe);
     }
+    upipe_release(upipe);
     return UBASE_ERR_NONE;
 }
 
